@@ -20,8 +20,26 @@
 #
 #############################################################################
 
+import datetime
+
+from dashlive.utils.date_time import from_isodatetime
+
 from .dash_option import DashOption
 from .types import OptionUsage
+
+def _corruption_from_string(value: str) -> list[str]:
+    """
+    A list of times of day (HH:MM:SSZ), or of segment numbers once the manifest
+    has translated the times for the media URLs
+    """
+    items = DashOption.list_without_none_from_string(value)
+    for item in items:
+        if item.isdigit():
+            continue
+        if not isinstance(from_isodatetime(item), (datetime.time, datetime.datetime)):
+            raise ValueError(f'Invalid time "{item}"')
+    return items
+
 
 VideoCorruption = DashOption(
     usage=(OptionUsage.MANIFEST | OptionUsage.VIDEO),
@@ -32,7 +50,7 @@ VideoCorruption = DashOption(
         'Cause video corruption to be generated when requesting a fragment at the given time. ' +
         'Invalid data is placed inside NAL packets of video frames. ' +
         'Each time must be in the form HH:MM:SSZ.'),
-    from_string=DashOption.list_without_none_from_string,
+    from_string=_corruption_from_string,
     to_string=lambda times: ','.join(times),
     cgi_name='vcorrupt',
     cgi_type='<time>,..',
